@@ -48,6 +48,13 @@ class ControlModels(CommonModels):
     def map_self(self, obj):
         return VConc(obj)
 
+    def setattr_hook(self, ex, path, obj, name, v):
+        # schema coercion: the queue is a symbolic-spine list
+        if name == 'commands' and isinstance(obj, VConc) and obj.obj is real_proto() and isinstance(v, VList):
+            path.heap[('f', ex.oid_of(obj), name)] = ex.seq_of(path, v, like=TCmds.empty())
+            return [(path, NONE)]
+        return None
+
     # ---- user callbacks may re-enter queue_command (DESIGN 2.4): summarised effect of k >= 0
     # re-entrant submissions, justified by the queue_command units (guarantee) + induction on k.
     def reenter(self, ex, path):
@@ -95,9 +102,65 @@ class ControlModels(CommonModels):
 
     # ---- externals
     def opaque_attr(self, ex, path, obj, name):
+        if obj.kind == 'OnDisconnect':
+            # the deprecated on_disconnect Deferred with nothing attached (trusted base)
+            if name == 'called':
+                return [(path, VBool(False))]
+            if name == 'callbacks':
+                return [(path, VTuple([]))]
         if obj.kind == 'Deferred' and name in ('called',):
-            raise Unsupported('Deferred.called')
+            self.assumptions.add('a Deferred belonging to a pending (in-flight or queued) command has not fired: consequence of Inv + A10 '
+                                 '(handlers fire only the in-flight Deferred, which then leaves the pending set); not machine-checked')
+            return [(path, VBool(False))]
         return [(path, VBoundExt(obj, name))]
+
+    # ---- loop over a symbolic sequence of commands: per-iteration contract + summary
+    def loop(self, ex, path, fr, st, it, ordinal):
+        q = fr.func.qualname if fr.func is not None else ''
+        if q.endswith('connectionLost') and isinstance(it, VSeq) and it.elem is TCmd:
+            return self.loop_fail_all(ex, path, fr, st, it)
+        return None
+
+    def loop_fail_all(self, ex, path, fr, st, seq):
+        """for d, cmd, cmd_arg in outstanding: <body>   -- inductive summary.
+        Step obligation (arbitrary index i): the body fires exactly seq[i].d with an error carrying
+        TorDisconnectError, and changes nothing else (beyond re-entrant post-loss submissions).
+        Summary: every element's Deferred fired exactly once, in order."""
+        import txtorcon.torcontrolprotocol as tcp
+        import twisted.python.failure as tf
+        ctx = self.ctx
+        body_path = path.fork()
+        i = ex.fresh_int(body_path, 'loop_i')
+        body_path.assume(z3.And(i >= 0, i < z3.Length(seq.t)))
+        elem = TCmd.wrap(z3.simplify(seq.t[i]))
+        # instance of the Inv clause 'queued command bytes are ASCII' (established by queue_command)
+        body_path.assume(z3.InRe(elem.items[1].t, z3.Star(z3.Range(mk_str('\x00'), mk_str('\x7f')))))
+        before_logs = {k: body_path.heap.get(('g', k), ()) for k in ('fired', 'writes', 'percb')}
+        snapshot = dict(body_path.heap)
+        for p2, r in ex.assign(st.target, elem, body_path, fr):
+            if isinstance(r, Raise):
+                ctx.oblige('loop.fail_outstanding.unpack', p2, z3.BoolVal(False))
+                continue
+            for p3, flow, v in ex.exec_block(st.body, p2, fr):
+                ctx.oblige('loop.fail_outstanding.body_completes_normally', p3, z3.BoolVal(flow in ('next', 'continue')),
+                           clause='every unanswered command is failed: the loop is not cut short')
+                fired = p3.heap.get(('g', 'fired'), ())[len(before_logs['fired']):]
+                ok = z3.BoolVal(False)
+                if len(fired) == 1:
+                    d, kind, val = fired[0]
+                    is_disc = (isinstance(val, VInst) and val.cls is tf.Failure and
+                               isinstance(p3.heap.get(('f', val.oid, 'value')), VInst) and
+                               p3.heap.get(('f', val.oid, 'value')).cls is tcp.TorDisconnectError)
+                    ok = z3.And(d.t == elem.items[0].t, z3.BoolVal(kind == 'err' and is_disc))
+                ctx.oblige('loop.fail_outstanding.fires_this_command_once_with_disconnect_error', p3, ok,
+                           clause='fails exactly once with a disconnect error')
+                ctx.oblige('loop.fail_outstanding.writes_nothing', p3,
+                           z3.BoolVal(len(p3.heap.get(('g', 'writes'), ())) == len(before_logs['writes'])),
+                           clause='nothing is written to the transport after the loss')
+        # continuation: summary
+        path.heap[('g', 'failed_all')] = path.heap.get(('g', 'failed_all'), ()) + (seq,)
+        self.reenter(ex, path)
+        return [(path, 'next', None)]
 
     def method(self, ex, path, recv, name, args, kw):
         if isinstance(recv, VOpaque):
@@ -114,6 +177,9 @@ class ControlModels(CommonModels):
             if recv.kind == 'Deferred' and name in ('addCallback', 'addErrback', 'addBoth', 'addCallbacks'):
                 self.glog_add(path, 'chained', (recv, name, args))
                 return [(path, recv)]
+            if recv.kind == 'reason' and name == 'check':
+                # Failure.check(cls): whether the close was clean -- either answer
+                return [(path, VBool(z3.Bool('clean_close')))]
             if recv.kind == 'transport' and name == 'write':
                 self.assumptions.add('A4 transport.write(b) appends b to the outgoing stream, in call order, without raising')
                 w = path.heap[('g', 'written')]
@@ -274,6 +340,7 @@ def make_proto(ctx, path, fsm_state, lost=None, cmd_kind=None):
         path.assume(z3.And(code0 >= 200, code0 < 700))
     H[('f', ('c', id(proto.fsm)), 'state')] = VConc(fsm_state_obj(fsm_state))
     H[('f', oid, 'transport')] = VOpaque('transport', 9001)
+    H[('f', oid, 'on_disconnect')] = VOpaque('OnDisconnect', 9002)
     wd = VConc(proto._when_disconnected)
     H[('f', ex.oid_of(wd), 'g_fired')] = VBool(lost0)
     H[('g', 'lost')] = VBool(lost0)
